@@ -46,6 +46,9 @@ pub fn gen_random(seed: u64, idx: u64) -> Plan {
     let mut nonce = 1u64;
     let mut conns = Vec::new();
     let plain_wires = r.chance(1, 3);
+    // one run in six through the HTTPS acceptor (HTTP/2 connections then
+    // negotiate h2 through ALPN)
+    let tls = r.chance(1, 6);
     for i in 0..nconns {
         let mut c = blank_conn(1000 + i as u16);
         c.start_ms = r.range(0, 60);
@@ -169,15 +172,22 @@ pub fn gen_random(seed: u64, idx: u64) -> Plan {
         c.steps = steps;
         conns.push(c);
     }
+    if tls {
+        for c in conns.iter_mut() {
+            if c.kind != ConnKind::H2 {
+                c.kind = ConnKind::Tls;
+            }
+        }
+    }
     Plan {
         property: "C16".into(),
         seed: mix(seed, idx),
-        server: ServerPlan { mode, body_limit: 1024, api: ApiKind::Work, rt_override: None, tls: false },
+        server: ServerPlan { mode, body_limit: 1024, api: ApiKind::Work, rt_override: None, tls },
         conns,
         shutdown: None,
         accept_errs: vec![],
         final_health: true,
-        note: format!("random idx={idx}"),
+        note: format!("random idx={idx} tls={tls}"),
     }
 }
 
